@@ -21,7 +21,7 @@ func init() {
 		"Decides the error plumbing on all paths: GoError returns an error iff a system or trapped bit is set (path enumeration); every ErrDecimal wrapper performs exactly the same-named Context call behind the sticky-error guard and accumulates flags; every return of the single-rounding operations passes the trap filter with the flags it returns; errors are never compared with each other; composite functions test ed.Err() before every result-delivering return and destination write; wrapper-driven loops terminate under any trap set.",
 		[]string{"equality of composite-function results across trap sets when no error is returned (depends on which internal conditions arise)"})
 	prop("C04", "Operations are total: no panic and no hang on any well-formed input",
-		[]string{"C04.R1", "C04.R2", "C04.R3", "C04.R4", "C04.R5", "C01.R3", "C07.R5"},
+		[]string{"C04.R1", "C04.R2", "C04.R3", "C04.R4", "C04.R5", "C01.R3", "C07.R5", "C07.R6"},
 		"Decides: the reachable explicit panics are the three tabled, unreachable ones (with exhaustive switch companions); no possibly-nil pointer reaches a dereferencing parameter; every big-integer divisor is a power of ten, a non-zero constant or behind the operand's IsZero test, and table indices are guarded; every API-reachable loop is counted, error-checked on each cycle, or tabled with its variant; the parser rejects signs inside the digit string, keeps a NaN form on error and range-checks finite results.",
 		[]string{"implicit run-time panics that depend on values beyond the listed index/divisor/nil obligations (inside math/big), memory exhaustion, slow-but-finite operations at the ±100000 limits"})
 	prop("C05", "Any argument may alias the destination or another argument",
@@ -35,7 +35,7 @@ func init() {
 		[]string{"nothing numeric is needed for this property"},
 		"a Condition carrying a System* flag always becomes an error (C03.R1/R3), so such returns need not deliver a complete value", "math/big mod/ref table", "hand summaries of the unsafe helpers")
 	prop("C07", "Every finite result fits the context it was computed in",
-		[]string{"C07.R1", "C07.R2", "C07.R3", "C07.R4", "C07.R5", "C01.R3"},
+		[]string{"C07.R1", "C07.R2", "C07.R3", "C07.R4", "C07.R5", "C07.R6", "C01.R3"},
 		"Decides: in every rounding operation the value delivered by each return has passed a setExponent range check after its last coefficient/exponent write (or is a whole-value copy, a small constant, or a tabled exception with its invariant); rounding increments are renormalised through roundAddOne; signed inputs to coefficients are sign-normalised; Context.Reduce strips after rounding.",
 		[]string{"that Rounder.Round removes exactly NumDigits−Precision digits (digit arithmetic)"})
 	prop("C08", "Special values follow the decimal arithmetic rules in every operation",
